@@ -445,7 +445,7 @@ func c13Run(c *vlib.Ctx, idx int) {
 		task            *simmesos.LaunchedTask
 		spec            chanSpec
 	}
-	boundBy := map[string]bound{}  // "<role path>:<chan>" -> what that task was told to bind
+	boundBy := map[string]bound{}    // "<role path>:<chan>" -> what that task was told to bind
 	aliasBy := map[string][]string{} // alias -> keys
 	get := func(args map[string]string, ch, f string) string { return args["chans."+ch+".0."+f] }
 	for _, tr := range sc.Root.taskRoles() {
